@@ -55,9 +55,15 @@ impl World {
     }
     /// descriptor key for index i; x-only form in Tap
     pub fn key(&self, i: usize, tap: bool) -> Key {
-        let s = if tap {
+        // in Tap, odd-numbered keys are written in their 33-byte form (the library treats them
+        // as x-only ones), even-numbered keys as x-only
+        let s = if tap && i % 2 == 0 {
             let (x, _) = self.pks[i].inner.x_only_public_key();
             format!("{}", x)
+        } else if tap {
+            let mut pk = self.pks[i];
+            pk.compressed = true;
+            format!("{}", pk)
         } else {
             format!("{}", self.pks[i])
         };
@@ -273,13 +279,15 @@ pub struct Gen<'a> {
     pub ci: CtxInfo,
     pub next_key: usize, // rotate keys so that duplicates are rare but possible
     pub dup_keys: bool,
+    pub abs_pool: Vec<u32>,
+    pub rel_pool: Vec<u32>,
 }
 
 type Ms<Ctx> = Miniscript<Key, Ctx>;
 
 impl<'a> Gen<'a> {
     pub fn new(w: &'a World, seed: u64, ci: CtxInfo) -> Self {
-        Gen { w, rng: Rng(seed), ci, next_key: 0, dup_keys: false }
+        Gen { w, rng: Rng(seed), ci, next_key: 0, dup_keys: false, abs_pool: Vec::new(), rel_pool: Vec::new() }
     }
     fn key(&mut self) -> Key {
         let i = if self.dup_keys && self.rng.chance(1, 3) {
@@ -292,26 +300,43 @@ impl<'a> Gen<'a> {
         self.w.key(i, self.ci.tap)
     }
     fn abs(&mut self) -> AbsLockTime {
-        let v = match self.rng.below(6) {
+        // repeat an earlier value half of the time: equal locks on one path matter
+        if !self.abs_pool.is_empty() && self.rng.chance(1, 2) {
+            let v = self.abs_pool[self.rng.below(self.abs_pool.len() as u64) as usize];
+            return AbsLockTime::from_consensus(v).unwrap();
+        }
+        let v = self.abs_fresh();
+        self.abs_pool.push(v);
+        AbsLockTime::from_consensus(v).unwrap()
+    }
+    fn abs_fresh(&mut self) -> u32 {
+        match self.rng.below(6) {
             0 => 1,
             1 => 1 + self.rng.below(1000) as u32,
             2 => 499_999_999,
             3 => 500_000_000 + self.rng.below(1000) as u32,
             4 => 1 + self.rng.below(16) as u32,
             _ => 100 + self.rng.below(100_000) as u32,
-        };
-        AbsLockTime::from_consensus(v).unwrap()
+        }
     }
     fn rel(&mut self) -> RelLockTime {
-        let v = match self.rng.below(6) {
+        if !self.rel_pool.is_empty() && self.rng.chance(1, 2) {
+            let v = self.rel_pool[self.rng.below(self.rel_pool.len() as u64) as usize];
+            return RelLockTime::from_consensus(v).unwrap();
+        }
+        let v = self.rel_fresh();
+        self.rel_pool.push(v);
+        RelLockTime::from_consensus(v).unwrap()
+    }
+    fn rel_fresh(&mut self) -> u32 {
+        match self.rng.below(6) {
             0 => 1,
             1 => 1 + self.rng.below(16) as u32,
             2 => 65535,
             3 => 0x400000 | (1 + self.rng.below(1000) as u32),
             4 => 0x400000 | 65535,
             _ => 1 + self.rng.below(65535) as u32,
-        };
-        RelLockTime::from_consensus(v).unwrap()
+        }
     }
     fn leaf_b<Ctx: ScriptContext>(&mut self) -> Option<Ms<Ctx>> {
         let t: Terminal<Key, Ctx> = match self.rng.below(16) {
@@ -327,8 +352,10 @@ impl<'a> Gen<'a> {
                 let n = 1 + self.rng.below(4) as usize;
                 let k = 1 + self.rng.below(n as u64) as usize;
                 let keys: Vec<Key> = (0..n).map(|_| self.key()).collect();
-                let sorted = self.rng.chance(1, 4);
-                if self.ci.tap {
+                let sorted = self.rng.chance(1, 3);
+                // now and then try the multisig flavour the context forbids: it must be rejected
+                let wrong_flavour = self.rng.chance(1, 5);
+                if self.ci.tap != wrong_flavour {
                     let th = Threshold::new(k, keys).ok()?;
                     if sorted {
                         Terminal::SortedMultiA(th)
